@@ -88,12 +88,52 @@ RESULTS = {
  "C19-2B": ("C19", "C19/panic/fastcgi.(*record).read", "quick", True, ""),
  "C20-2A": ("C20", "C20/line-unexpected/excepted", "quick", False, "rule prefixes with percent-encoded characters"),
  "C20-2B": ("C20", "C20/size-mismatch/gzip", "quick", True, ""),
+ "C01-3A": ("C01", "C01/misrouted/concurrent", "quick", False, "new concurrent battery: 64 goroutines drive real httpserver.Server objects (NewServer over hand-made site configs) through Server.ServeHTTP, every answer judged by the reference router"),
+ "C01-3B": ("C01", "C01/misrouted/want-none-via-exact/got-catch-all-host/prefix", "quick", True, ""),
+ "C02-3A": ("C02", "C02/listing-names-hidden, C02/hidden-file-served", "quick", False, "the instance's Casketfile gets one more site whose root does not hold the Casketfile, declared before the others in one variant and after them in the other"),
+ "C02-3B": ("C02", "C02/hidden-file-served", "quick", False, "`index index.html Casketfile` on the static/archive sites of the variant without a top-level index.html (the hidden file as fallback index page)"),
+ "C03-3A": ("C03", "C03/disclosed/basicauth", "quick", False, "protection variant with two basicauth rules: the first excludes /secret/pub, the second protects it"),
+ "C03-3B": ("C03", "C03/disclosed/internal/after-redeploy", "quick", False, "new redeploy phase: protected files replaced by rename (new inode) while the server runs, the credential-less requests repeated after every replacement"),
+ "C04-3A": ("C04", "C04/req-body", "quick", True, ""),
+ "C04-3B": ("C04", "C04/resp-after-backend-death/not-a-prefix", "quick", False, "backend replies that die after half of the body inside retrying blocks; the client must hold a prefix of that reply and nothing else"),
+ "C05-3A": ("C05", "C05/e2e-not-answered-by-healthy/*", "quick", False, "end-to-end scenarios in which the client pauses 900 ms in mid-body while try_duration is 500 ms"),
+ "C05-3B": ("C05", "C05/no-host-although-one-available/header (uri_hash, ip_hash)", "quick", False, "a quarter of the enumeration keys are boundary keys whose FNV-1a value lies within 7 of either end of the 32-bit range (found by exhaustive search, re-verified at run time)"),
+ "C06-3A": ("C06", "C06/clientauth-site-served-under-other-sni/*", "quick", False, "core layouts with a client-auth site whose name merely begins with another site's name (a.test / a.test.ext), both names as SNI and Host"),
+ "C06-3B": ("C06", "C06/clientauth-site-served-without-client-cert/exact", "quick", False, "core layouts with a named site that only exists under a path prefix beside a client-auth catch-all"),
+ "C07-3A": ("C07", "C07/history-not-linearizable", "quick", False, "fifth history mode: default 5 s grace period with connections that stay busy for 1.5 s on both listeners"),
+ "C07-3B": ("C07", "C07/request-answered-by-rejected-configuration, C07/history-not-linearizable", "quick", False, "configurations rejected at listen time open 40 further ports and are retried five times in a row; explicit check that no request is answered by a rejected configuration"),
+ "C08-3A": ("C16 (C08's histories are sequential by its quantifier)", "C16/process-shutdown-callbacks-not-exactly-once, C16/callbacks-of-discarded-instance-at-shutdown", "quick", True, ""),
+ "C08-3B": ("C08", "C08/event-hooks-left-by-failed-load/sigusr1", "quick", True, ""),
+ "C09-3A": ("C09 (also C10)", "C09/perm-differs/load ; C10/roundtrip/inline", "quick", False, "line variant whose last argument is an unset environment placeholder; a block rejected as written whose reordering loads now counts as an order dependence (C10 caught it as it was)"),
+ "C09-3B": ("C09 (also C03)", "C09/precedence/internal-before-content/browse-listing ; C03/archive-of-ancestor/internal", "quick", False, "precedence fact: an internal sub-directory is not named in the parent's browse listing (C03 caught it as it was)"),
+ "C10-3A": ("C10", "C10/import-expansion-wrong", "quick", False, "import fixtures in which the same relative import text (file and glob) is written in files of different directories"),
+ "C10-3B": ("C10", "C10/roundtrip/inline", "quick", False, "two environment variables change from one parse to the next inside one child (rotating value, set/unset)"),
+ "C11-3A": ("C11", "C11/panic/tls-load-*", "quick", False, "fixture directory of damaged certificate bundles (truncated after EC PARAMETERS, parameters only, certificate only, key only, cut block, empty)"),
+ "C11-3B": ("C11", "C11/panic/proxy-*-index", "quick", False, "lexical class of upstream addresses with port ranges, including one ending at 65535 and a reversed one"),
+ "C12-3A": ("C12", "C12/superfluous-writeheader/written (also body lost)", "quick", False, "scripted behaviours that send their body with io.Copy from a plain reader (the ReadFrom path of wrapping writers), with and without a Content-Encoding of their own"),
+ "C12-3B": ("C12", "C12/concurrent/error-page/not-the-configured-page", "quick", False, "concurrent battery: 16 clients failing at once on a site whose configured error pages are 192 KiB"),
+ "C13-3A": ("C13", "C13/handler-panic", "quick", True, ""),
+ "C13-3B": ("C13", "C13/stdin-bytes", "quick", True, ""),
+ "C14-3A": ("C14", "C14/fails-exceeds-failures", "quick", True, ""),
+ "C14-3B": ("C14", "C14/not-down-with-max_fails-unexpired", "quick", False, "down-ness rounds with a pool of one host"),
+ "C15-3A": ("C15", "C15/non-qualifying-site-managed", "quick", True, ""),
+ "C15-3B": ("C15", "C15/redirect-missing", "quick", True, ""),
+ "C16-3A": ("C16", "C16/wait-returned-early", "quick", True, ""),
+ "C16-3B": ("C16", "C16/process-shutdown-callbacks-not-exactly-once", "quick", False, "two process scenarios with three instances in which the first instance is stopped while the (slowed) shutdown callbacks run"),
+ "C17-3A": ("C17", "C17/limit-of-wrong-scope", "quick", False, "a quarter of the body cases spell the request path in upper case, with a doubled slash or through a dot segment"),
+ "C17-3B": ("C17", "C17/listener-setting-not-strictest/header", "quick", True, ""),
+ "C18-3A": ("C18", "C18/encoded-again/zstd", "quick", True, ""),
+ "C18-3B": ("C18", "C18/static-sibling-in-unoffered-coding/gzip", "quick", True, ""),
+ "C19-3A": ("C19", "C19/link-header-slice", "quick", True, ""),
+ "C19-3B": ("C19", "C19/panic/httpserver.getVersion", "quick", True, ""),
+ "C20-3A": ("C20", "C20/expansion/query-arg", "quick", True, ""),
+ "C20-3B": ("C20", "C20/expansion/req-header-absent", "quick", True, ""),
 }
 
 VERIFY = {}
 for f in glob.glob("/tmp/verify_batch*.log"):
     for line in open(f):
-        m = re.match(r"/tmp/mut(2?)-(C\d\d)-out ([ABC]): build=(\d+) suite=(\d+) demo_without=(\d+) demo_with=(\d+)", line)
+        m = re.match(r"/tmp/mut(\d?)-(C\d\d)-out ([ABC]): build=(\d+) suite=(\d+) demo_without=(\d+) demo_with=(\d+)", line)
         if m:
             VERIF = {"build_ok": m.group(4) == "0", "suite_passes_with_change": m.group(5) == "0",
                      "demo_passes_without_change": m.group(6) == "0", "demo_fails_with_change": m.group(7) != "0"}
